@@ -237,10 +237,25 @@ def later_call_family():
     return out
 
 
+def block_in_body_family():
+    """A macro whose body contains a Block (ended by End block / End blocks) is called twice or three times: every call runs the
+    whole body again, the Block included."""
+    M, CA, EB, EBS = ("M", ()), ("CA", ()), ("EB", ()), ("EBS", ())
+    bodies = [(("K", (EB,)),), (("K", (M, EB)),), (("K", (M, EB)), M), (M, ("K", (M, EB))), (("K", (M, EB, M)), M),
+              (("K", (M, EBS)), M), (("K", (("K", (M, EBS)), M)), M), (("K", (M, EB)), ("K", (M, EB)))]
+    out = []
+    for body in bodies:
+        for calls in ((CA, CA), (CA, M, CA), (CA, CA, CA)):
+            if len(calls) * len(pgen.kinds_flat(body)) > 15:
+                continue          # would not be quiescent inside the horizon
+            out.append((("MA", body),) + calls)
+    return out
+
+
 def run(ctx):
     n = 4 if ctx.quick else 5
     forests = ([f for f in pgen.programs(KINDS, n, depth=2) if valid(f)] + redefinition_family(ctx) + nested_recursion_family()
-               + later_call_family())
+               + later_call_family() + block_in_body_family())
     ctx.prove_deterministic(lambda f: check_program(f)[0], [forests[0], forests[len(forests) // 2]], k=2)
     results = ctx.pmap(check_program, forests)
     execs = nontrivial = edits = 0
